@@ -159,6 +159,7 @@ fn plan(prop: &str, o: &mut Out) {
                 pats.extend(top_halfword_patterns(o, n, if o.thorough { 17 } else { 509 }));
             }
             pats.extend(wide_big_patterns(o));
+            pats.extend(zero_run_patterns(o));
             pats.extend(nan_payload_patterns(o));
             g_on_patterns(o, "to_float", &pats, &["f32", "f64"]);
         }
@@ -166,7 +167,10 @@ fn plan(prop: &str, o: &mut Out) {
             g_frag(o, &all);
             g_maxlen_fmt(o, &all);
             g_edge_fill(o, &all);
+            g_long_valid(o, &all);
             g_swallow_invalid(o, &all);
+            // invalid texts through both entry points: they must agree on rejection too
+            g_targeted_invalid(o);
         }
         "C15" => {
             // the same inputs through every type able to take them; compare.py groups the answers
